@@ -149,7 +149,7 @@ def _find(nodes, name):
 
 def gen_graph(rng, gname, max_nodes=8, shapes=None, allow_cond=True):
     shapes = shapes or ["single", "chain", "fork", "join", "diamond", "random", "random",
-                        "cond", "cond", "cond_nested", "multi_cond", "cond_dag", "cond_open", "cond_empty"]
+                        "cond", "cond", "cond_nested", "multi_cond", "cond_dag", "cond_open"]
     if not allow_cond:
         shapes = [s for s in shapes if not s.startswith("cond") and s != "multi_cond"]
     if max_nodes <= 5:
